@@ -195,4 +195,13 @@ NeverHealed12 == NeverHealedWithout(1, 2)
 NeverHealed23 == NeverHealedWithout(2, 3)
 NeverHealed13 == NeverHealedWithout(1, 3)
 DumpEdge == PrintT("EDGE " \o ToJson(View) \o "\t" \o ToJson(act') \o "\t" \o ToJson(View'))
+(***************************************************************************)
+(* `act` (the step's observed outcome) is not part of the VIEW: as a state  *)
+(* predicate an invariant over act would be evaluated only for the first     *)
+(* representative TLC finds of each view class.  The action forms below are  *)
+(* evaluated for EVERY transition TLC generates; the configurations that use *)
+(* a VIEW check these.                                                       *)
+(***************************************************************************)
+DataSafeA == [][DataSafe']_vars
+
 =============================================================================
